@@ -87,10 +87,31 @@ def masks_of(n, step):
     return gen()
 
 
+def sparse_masks(n, step):
+    """Sparse digraphs, which dense sampling never produces: every FUNCTIONAL graph on n nodes (each
+    node exactly one successor: unions of cycles with in-trees), each also with one and with two
+    extra edges chosen by index; step > 1 takes every step-th function."""
+    total = n ** n
+    for f in range(0, total, step):
+        succ = []
+        x = f
+        for i in range(n):
+            succ.append(x % n)
+            x //= n
+        mask = 0
+        for i, j in enumerate(succ):
+            mask |= 1 << (i * n + j)
+        yield mask
+        a, b = (f * 7 + 3) % n, (f * 5 + 1) % n
+        yield mask | (1 << (a * n + b))
+        c, d = (f * 11 + 2) % n, (f * 3 + 4) % n
+        yield mask | (1 << (a * n + b)) | (1 << (c * n + d))
+
+
 def enum_shard(st, shard, nshards, payload):
     idx = 0
     for (n, step) in payload['scopes']:
-        for mask in masks_of(n, step):
+        for mask in (sparse_masks(n, -step) if step < 0 else masks_of(n, step)):
             idx += 1
             if idx % nshards != shard:
                 continue
@@ -135,11 +156,13 @@ def run(ctx):
     # beyond the exhaustive scope: deterministic samples of the 2^25 / 2^36 / 2^49 digraphs on
     # 5 / 6 / 7 nodes (a defect may need a fifth node: two DFS trees plus a cross edge)
     if ctx.thorough:
-        scopes += [(5, 40), (6, 1 << 17), (7, 1 << 31)]
+        scopes += [(5, 40), (6, 1 << 17), (7, 1 << 31), (5, -1), (6, -1), (7, -7), (8, -257), (9, -9001), (10, -400009)]
         ctx.scopes.append('samples: 2^25/40 digraphs on 5 nodes, 2^19 on 6 nodes, 2^18 on 7 nodes')
+        ctx.scopes.append('sparse: all functional graphs on 5 and 6 nodes (+1, +2 extra edges), samples on 7-10 nodes')
     else:
-        scopes += [(5, 800), (6, 1 << 22), (7, 1 << 36)]
+        scopes += [(5, 800), (6, 1 << 22), (7, 1 << 36), (5, -1), (6, -5), (7, -101), (8, -4001), (9, -100003), (10, -3000017)]
         ctx.scopes.append('samples: 2^25/800 digraphs on 5 nodes, 2^14 on 6 nodes, 2^13 on 7 nodes')
+        ctx.scopes.append('sparse samples: functional graphs (each node one successor; +1, +2 extra edges): all on 5 nodes, strided samples on 6-10 nodes')
     ctx.exhaustive = True
     f = core.run_sharded(ctx, enum_shard, {'scopes': scopes})
     if f is not None:
